@@ -1,5 +1,6 @@
 import LenaModel.DriverUtil
 import LenaModel.Model.C06
+import LenaModel.Model.C06Spec
 /-! Model driver for C06.  Edge values / coordinates are integers (an order-embedding of the
 case's numbers), bin contents / weights are integers (exactly scaled).  The float interpolation
 guess of the search is supplied by the harness as a finite table; a missing entry is a guess
@@ -16,7 +17,20 @@ Requests:
           "all":{"e":name}|{"bins":nested,"oor":int}}        (`fillAll`: the whole sequence, first exception ends it)
   {"op":"elem","edges":..,"bins":..,"init":int,"one":int,
    "vals":[{"c":..,"ctx":int|null,"g":..},..]}
-      -> {"e":name,"phase":"init"} | {"e":name,"phase":"fill"} | {"bins":nested,"oor":int,"ctx":int|null} -/
+      -> {"e":name,"phase":"init"} | {"e":name,"phase":"fill"} | {"bins":nested,"oor":int,"ctx":int|null}
+
+Extension round (every definition of `Model/C06Spec.lean` is executed here):
+  bin1d also accepts "full":bool (the table holds the guess of EVERY pair lo+1<hi with arr[lo]<val<arr[hi]),
+   "arrf":[u64 bit patterns],"valf":u64 (all numbers are doubles), "arri":[ints],"vali":int (all numbers are ints)
+   and adds to the reply "vis":visitedInRange, "okat":guessOKAtB (if full), "cnt":countLE, "inc":StrictInc,
+   "fr"/"fvis"/"fokat"/"fg" (result, predicates and guesses at the table's states with `floatGuess`),
+   "ir"/"rr" (result with `interpGuess` / `roundedGuessArr id`), "trace":[lo,hi,g,..] visited states
+  hist also accepts per fill "pc":[cell]|null (the cell found by the harness) and adds "spec":{..} (see `specJson`)
+  {"op":"initbins","edges":..,"init":int,"deep":bool}                     -> {"bins":nested} | {"e":name}
+  {"op":"elem2","edges":..,"bins":..,"mk":null|nested,"init":int,"one":int,
+   "ops":[{"c":..,"ctx":int|null,"g":..} | {"reset":true},..]}
+      -> {"e":name,"phase":"init"} | {"e":name,"phase":"run"}
+       | {"bins":nested,"oor":int,"ctx":int|null,"tot":int,"ssum":int|null,"fresh":bool} -/
 open Lean Lena Lena.Drv Lena.C06
 
 partial def parseNArr (j : Json) : Option (NArr Int) :=
@@ -106,14 +120,106 @@ def parseVals : List Json → Option (List ((Nat → Nat → Nat → Int) × Coo
     let r ← parseVals rest
     some ((guessN tab, c, ctx) :: r)
 
+
+/-- visited guess states of the search (driver-side diagnostic, mirrors `bin1dLoop`) -/
+partial def traceLoop (guess : Nat → Nat → Int) (val : Int) (arr : Array Int) (lo hi : Nat) : List Int :=
+  if hi - lo ≤ 1 then []
+  else
+    let a := arr.getD lo 0
+    let b := arr.getD hi 0
+    if val == a || val < a || b ≤ val then []
+    else
+      let g := guess lo hi
+      let here := [(lo : Int), (hi : Int), g]
+      if g < lo || (hi : Int) < g then here
+      else if (lo : Int) == g then here ++ traceLoop guess val arr (lo + 1) hi
+      else if (hi : Int) == g then here ++ traceLoop guess val arr lo (hi - 1)
+      else if val < arr.getD g.toNat 0 then here ++ traceLoop guess val arr lo g.toNat
+      else here ++ traceLoop guess val arr g.toNat hi
+
+def resJson : Except Err Int → Json
+  | .ok r => ofInt r
+  | .error e => Json.mkObj [("e", exc e)]
+
+def tabStates : List Int → List (Nat × Nat)
+  | l :: h :: _ :: rest => (l.toNat, h.toNat) :: tabStates rest
+  | _ => []
+
+def floatList? (j : Json) : Option (Array Float) := do
+  let a ← arr? j
+  let l ← a.toList.mapM nat?
+  some (l.map (fun n => Float.ofBits n.toUInt64)).toArray
+
+def bin1dExtra (j : Json) (arr : List Int) (v : Int) (tab : List Int) : List (String × Json) :=
+  let g := guess1 tab
+  let base : List (String × Json) :=
+    [("vis", Json.bool (visitedInRange g v arr)), ("cnt", ofNat (countLE arr v)),
+     ("inc", Json.bool (decide (StrictInc arr))), ("trace", ofIntList (traceLoop g v arr.toArray 0 (arr.length - 1)))]
+  let full := match bool? (getD j "full") with
+    | some true => [("okat", Json.bool (guessOKAtB arr v g))]
+    | _ => []
+  let fl := match floatList? (getD j "arrf"), nat? (getD j "valf") with
+    | some af, some vb =>
+      let fg := floatGuess af (Float.ofBits vb.toUInt64)
+      [("fr", resJson (bin1d fg v arr)), ("fvis", Json.bool (visitedInRange fg v arr)),
+       ("fokat", Json.bool (guessOKAtB arr v fg)),
+       ("fg", ofIntList ((tabStates tab).map (fun (p : Nat × Nat) => fg p.1 p.2)))]
+    | _, _ => []
+  let it := match intList? (getD j "arri"), int? (getD j "vali") with
+    | some ai, some vi =>
+      [("ir", resJson (bin1d (interpGuess ai vi) v arr)),
+       ("rr", resJson (bin1d (roundedGuessArr id (ai.map (fun (i : Int) => (i : Rat))) (vi : Rat)) v arr))]
+    | _, _ => []
+  base ++ full ++ fl ++ it
+
+def optCell (j : Json) : Option (Option (List Nat)) :=
+  if j.isNull then some none else ((arr? j).bind (fun a => a.toList.mapM nat?)).map some
+
+/-- the specification side of a histogram case: every spec definition evaluated on the case -/
+def specJson (edges : Edges Int) (h0 : Hist Int Int) (fills : List Json)
+    (ops : List ((Nat → Nat → Nat → Int) × Coord Int × Int)) : Json :=
+  let axes := edges.axes
+  let perFill := (List.zip fills ops).map fun (f, (_, c, _)) =>
+    match properList? edges c with
+    | none => Json.mkObj [("proper", Json.bool false)]
+    | some xs =>
+      let pc := match optCell (getD f "pc") with
+        | some (some idx) => Json.bool (decide (InCell axes xs idx))
+        | _ => Json.null
+      Json.mkObj [("proper", Json.bool true), ("ind", ofIntList (indices axes xs)),
+                  ("inr", Json.bool (decide (InRange (indices axes xs) (dimsOf axes)))),
+                  ("cell", ofOpt (ofList ofNat) (cellOf? axes xs)), ("pc_incell", pc)]
+  let pts : List (List Int × Int) := ops.filterMap fun (_, c, w) => (properList? edges c).map (fun xs => (xs, w))
+  let wf := wfB h0
+  let fin := specFillAll axes (h0.bins, h0.nOut) pts
+  Json.mkObj [("valid", Json.bool (decide (ValidEdges edges))), ("dim", ofNat (edgesDim edges)),
+              ("dims", ofList ofNat (dimsOf axes)), ("wf0", Json.bool wf), ("fills", Json.arr perFill.toArray),
+              ("total0", ofInt (total h0.bins)),
+              ("sbins", if wf then narrJson fin.1 else Json.null), ("soor", if wf then ofInt fin.2 else Json.null),
+              ("stotal", if wf then ofInt (total fin.1) else Json.null),
+              ("sumw", ofInt (sumW (pts.map (·.2))))]
+
+def parseElOps : List Json → Option (List (ElOp Int (Option Int)))
+  | [] => some []
+  | f :: rest => do
+    let r ← parseElOps rest
+    match bool? (getD f "reset") with
+    | some true => some (ElOp.reset :: r)
+    | _ =>
+      let c ← parseCoord (getD f "c")
+      let ctx ← optInt (getD f "ctx")
+      let tab ← parseTab (getD f "g")
+      some (ElOp.fill (guessN tab) c (ctx.map some) :: r)
+
 def handle (j : Json) : Json :=
   match str? (getD j "op") with
   | some "bin1d" =>
     match intList? (getD j "arr"), int? (getD j "val"), parseTab (getD j "g") with
     | some arr, some v, some tab =>
+      let extra := bin1dExtra j arr v tab
       match bin1d (guess1 tab) v arr with
-      | .ok r => Json.mkObj [("r", ofInt r)]
-      | .error e => Json.mkObj [("e", exc e)]
+      | .ok r => Json.mkObj (("r", ofInt r) :: extra)
+      | .error e => Json.mkObj (("e", exc e) :: extra)
     | _, _, _ => err "bad bin1d args"
   | some "hist" =>
     match parseEdges (getD j "edges"), parseBins (getD j "bins"), int? (getD j "init"), arr? (getD j "fills") with
@@ -128,7 +234,7 @@ def handle (j : Json) : Json :=
             | .error e => Json.mkObj [("e", exc e)]
             | .ok ha => Json.mkObj [("bins", narrJson ha.bins), ("oor", ofInt ha.nOut)]
           Json.mkObj [("steps", Json.arr steps.toArray), ("bins", narrJson hf.bins), ("oor", ofInt hf.nOut),
-                      ("all", all)]
+                      ("all", all), ("spec", specJson edges h fills.toList ops)]
         | none => err "bad fills"
     | _, _, _, _ => err "bad hist args"
   | some "elem" =>
@@ -144,6 +250,33 @@ def handle (j : Json) : Json :=
           Json.mkObj [("bins", narrJson el'.hist.bins), ("oor", ofInt el'.hist.nOut),
                       ("ctx", ofOpt ofInt el'.curContext)]
     | _, _, _, _, _ => err "bad elem args"
+  | some "initbins" =>
+    match parseEdges (getD j "edges"), int? (getD j "init"), bool? (getD j "deep") with
+    | some edges, some init, some deep =>
+      match initBinsD deep init edges with
+      | .ok b => Json.mkObj [("bins", narrJson b)]
+      | .error e => Json.mkObj [("e", exc e)]
+    | _, _, _ => err "bad initbins args"
+  | some "elem2" =>
+    match parseEdges (getD j "edges"), parseBins (getD j "bins"), parseBins (getD j "mk"), int? (getD j "init"),
+          int? (getD j "one"), (arr? (getD j "ops")).bind (fun a => parseElOps a.toList) with
+    | some edges, some bins, some mk, some init, some one, some ops =>
+      match HistEl2.new (none : Option Int) edges bins mk init with
+      | .error e => Json.mkObj [("e", exc e), ("phase", "init")]
+      | .ok el =>
+        match HistEl2.run (none : Option Int) one el ops with
+        | .error e => Json.mkObj [("e", exc e), ("phase", "run")]
+        | .ok el' =>
+          let s0 := total el.hist.bins + el.hist.nOut
+          -- `reset()` of the final state against a newly constructed element (`histEl2_reset_fresh`)
+          let fresh := match HistEl2.reset (none : Option Int) el', HistEl2.new (none : Option Int) edges bins mk init with
+            | .ok a, .ok b => narrJson a.hist.bins == narrJson b.hist.bins && a.hist.nOut == b.hist.nOut
+            | .error a, .error b => a == b
+            | _, _ => false
+          Json.mkObj [("bins", narrJson el'.hist.bins), ("oor", ofInt el'.hist.nOut),
+                      ("ctx", ofOpt ofInt el'.curContext), ("tot", ofInt (total el'.hist.bins + el'.hist.nOut)),
+                      ("ssum", ofInt (specSum s0 one s0 ops)), ("fresh", Json.bool fresh)]
+    | _, _, _, _, _, _ => err "bad elem2 args"
   | _ => err "unknown op"
 
 def main : IO Unit := run handle
